@@ -44,6 +44,10 @@ CLAIMED = {
          "_reduce_deltas (np.intersect1d positions and both shortcuts), reweight (both normalisations), correlate and merge_obs are transcribed (Obs/Pairing.v); it is proved for all strictly increasing configuration lists and all subset requests that the selected rows are exactly the fluctuations stored under the requested configuration numbers, that an unmeasured configuration is rejected, and that the reweighted flag is set. "
          "The specification pairs samples through finite-map lookup by configuration number; the implementation (function, Obs method and Corr method) is run on weights / observables on prefix, suffix, stride and random subsets and replica subsets, on malformed requests, and on replica partitions for merge_obs, and Coq decides agreement with model and specification exactly.",
          "the division <w o>/<w> itself is C01's derived_observable model; Obs.__init__'s list->range normalisation is modelled by norm_idl.", "§3 C05"),
+ "C02": ("proof", "Coq refinement theorems (zero-filled arrays + shifted dot products = sums over pairs t steps apart by configuration number; slices of _compute_drho = index form; window loop = first negative lag; FFT padding; Interval-verified sign of the windowing function) over a line-by-line model + in-Coq correspondence against model and paper-formula specification",
+         "gamma_method for one ensemble is transcribed over exact rationals (Obs/Gamma.v: _determine_gap, r_length, _expand_deltas, _calc_gamma, pair-count division, rho, cumulative tau_int with clipping, eq. (42), _compute_drho with its three Python slices, the tau_exp loop, S = 0, automatic windowing) with all square roots kept squared. Proved for all chain layouts and sizes: the computed Gamma(t) is the sum over configurations c of delta(c) delta(c + t gap) (pairs t measurement steps apart, by number), the divisor counts the pairs present, the FFT padding makes the circular correlation equal the linear one, the drho slices are the index form of the paper, the windowing loop returns the first lag with a negative criterion, the tau_exp criterion is decided exactly from squares, Gamma(0) = sum delta^2 / N (naive error for S = 0). "
+         "The sign of g_W (exp, ln, sqrt) is decided by 80-bit interval enclosures of the Interval library with a soundness theorem. The implementation is run on generated ensembles (gap 1/2/5, mixed strides, gapped lists, five data kinds, all parameter routes, fft on/off) and Coq decides agreement of window, tau_int, errors, rho, drho, cumulative arrays with the model and with an independent re-statement from the papers' formulas; totals over ensembles and covariance inputs likewise.",
+         "partial: agreement of the whole model function with the whole specification function is established per generated case by evaluation (their components are related by the theorems above); np.fft itself is outside the model; near-tie window decisions (|g_W| < 2^-30) are skipped and counted; the model receives the fluctuations as exact rationals factor*(x - mean) whose binary64 roundings the implementation holds.", "§3 C02"),
 }
 NOT_YET = "check not built yet in this session (work in progress; see DESIGN.md §6 for the order of work)"
 
